@@ -102,6 +102,10 @@ func runC01(p *Prog, r *Report) {
 	if want("C01.10") {
 		ruleBaseLevel(p, r, "C01.10")
 	}
+	if want("C01.18") {
+		// transaction / large-batch records get fresh sequence numbers (shared with C11.1b)
+		ruleTrRecordSeq(p, r, "C01.18")
+	}
 	if want("C01.17") {
 		// a recycled table number must not be read through the removed table's cached blocks (D15)
 		ruleFileNumRecycling(p, r, "C01.17")
